@@ -104,6 +104,9 @@ func scanLong(comment bool) stateFn {
 				break OpeningLoop
 			default:
 				if comment {
+					// Not a long bracket: this is a short comment.  Give back
+					// the character just read, it may be the end of the line.
+					l.backup()
 					l.ignore()
 					return scanShortComment
 				}
